@@ -437,6 +437,11 @@ class Ctx:
         self.obligations.append((name, bool(ok)))
 
     def finish(self, level="proof", rule="", checker_cmd="", extra=None):
+        und = [n for n, ok in self.obligations if not ok]
+        if und and not self.violations:
+            # an obligation that is not discharged means the property is no longer shown to hold
+            self.violation("obligations not discharged: %s" % "; ".join(und)[:600],
+                           {"undischarged": und, "notes": self.notes}, no_input=True)
         for key, desc in sorted(self.known_hits.items()):
             print("KNOWN-FINDING: property=%s %s %s" % (self.pid, key, desc))
         cov = {
